@@ -16,6 +16,7 @@ import (
 	"hash/fnv"
 	"os"
 	"path/filepath"
+	"runtime"
 	"runtime/debug"
 	"sort"
 	"strconv"
@@ -318,6 +319,19 @@ func (s *Spec[T]) safeCheck(c T, r *Recorder) (err error) {
 	return s.Check(c, r)
 }
 
+// exitOnHang: a call that does not come back cannot be shrunk (every further attempt leaks
+// another spinning goroutine, and one that allocates as it spins gets the process killed before
+// it can report): the case is saved, the verdict printed and the process ends at once.
+func (s *Spec[T]) exitOnHang(err error, saved string, r *Recorder, start time.Time) {
+	if !strings.Contains(err.Error(), "(hang)") {
+		return
+	}
+	fmt.Printf("%s/%s violated: %v (case saved to %s)\n", s.Prop, s.Name, err, saved)
+	r.flush(s.Prop, s.Name, s.Rule, false, start)
+	s.closeInflight()
+	os.Exit(1)
+}
+
 // In-flight record: what recover() cannot catch - os.Exit / log.Fatal inside
 // the library, a stack overflow, "concurrent map writes" - ends the process in
 // the middle of a case.  The case being checked is therefore kept in a file
@@ -419,6 +433,7 @@ func (s *Spec[T]) Run(t *testing.T, gen func(*rapid.T) T, quickN, thoroughN int)
 		}
 		if err := s.safeCheck(c, r); err != nil {
 			p := s.violation(c, err)
+			s.exitOnHang(err, p, r, start)
 			rt.Fatalf("%s/%s violated: %v (case saved to %s)", s.Prop, s.Name, err, p)
 		}
 	})
@@ -443,6 +458,7 @@ func (s *Spec[T]) Enumerate(t *testing.T, exhaustive bool, each func(r *Recorder
 		}
 		if err := s.safeCheck(c, r); err != nil {
 			p := s.violation(c, err)
+			s.exitOnHang(err, p, r, start)
 			t.Errorf("%s/%s violated: %v (case saved to %s)", s.Prop, s.Name, err, p)
 			failed = true
 			return false
@@ -476,11 +492,24 @@ func withTimeout(d time.Duration, what string, f func() error) error {
 		}()
 		ch <- f()
 	}()
-	select {
-	case err := <-ch:
-		return err
-	case <-time.After(d):
-		return hangError{fmt.Sprintf("%s did not return within %v (hang)", what, d)}
+	deadline := time.After(d)
+	tick := time.NewTicker(250 * time.Millisecond)
+	defer tick.Stop()
+	for {
+		select {
+		case err := <-ch:
+			return err
+		case <-deadline:
+			return hangError{fmt.Sprintf("%s did not return within %v (hang)", what, d)}
+		case <-tick.C:
+			// a call that spins while allocating would take the whole process down before the
+			// deadline: 3 GiB of live heap is taken for the same verdict
+			var ms runtime.MemStats
+			runtime.ReadMemStats(&ms)
+			if ms.HeapAlloc > 3<<30 {
+				return hangError{fmt.Sprintf("%s has not returned and the heap has grown to %d MiB (hang)", what, ms.HeapAlloc>>20)}
+			}
+		}
 	}
 }
 
